@@ -21,6 +21,8 @@ func runC09(c *Check, tier string) {
 	ruleR09c(c, "R09c")
 	// "if": states that differ in a dependency's output digest must get different keys
 	ruleR02c(c, "R09d")
+	// "only if": every component the statement lists is part of the key
+	ruleR01a(c, "R09e")
 }
 
 var sortFuncs = map[string]bool{
